@@ -225,6 +225,13 @@ def run(chk):
                 ck = exp_counts.sum(axis=1)
                 if not np.array_equal(cpoles, ck):
                     chk.violation(f'{tag}-pole-counts', f'{c}: N_mode of the multipoles {cpoles.tolist()} != sum over mu of the wedge counts {ck.tolist()}', payload)
+                # the multipoles must not depend on the order / subset in which they are requested
+                for plist in ([2, 0], [4, 0, 2], [2, 4], [0]):
+                    _, _, wp2, cp2, _ = call(w, nthread=2, poles=np.array(plist, dtype=np.int64))
+                    for ip2, l2 in enumerate(plist):
+                        if not np.allclose(wp2[ip2], wpoles[[0, 2, 4].index(l2)], rtol=1e-6, atol=1e-9 * (1 + np.abs(wpoles[0]).max())):
+                            chk.violation(f'{tag}-pole-order-l{l2}', f'{c}: multipole l={l2} requested as poles={plist} differs from its value with poles=[0,2,4] '
+                                          f'({wp2[ip2].tolist()} vs {wpoles[[0, 2, 4].index(l2)].tolist()})', payload)
                 for ip, l in enumerate((0, 2, 4)):
                     want = np.array([float(SP[l][b] / int(ck[b])) if ck[b] else 0.0 for b in range(nb)])
                     # P_n is evaluated in float32 inside the kernel: tolerance 2e-5 relative to the bin's mean |value|
